@@ -34,7 +34,7 @@ QUNITS = ["cm/g2", "km", "J/s", "m2", "kg*m/s2"]
 @st.composite
 def entry(draw):
     sym = draw(st.sampled_from(FRESH))
-    form = draw(st.sampled_from(["dict", "dict", "quantity", "dict_type", "dict_type", "dict_builtin"]))
+    form = draw(st.sampled_from(["dict", "dict", "quantity", "dict_type", "dict_type", "dict_builtin", "dict_type2"]))
     if form == "quantity":
         return {"sym": sym, "form": form, "mag": draw(st.sampled_from([1.0, 2.0, 0.5, 60.0])), "unit": draw(st.sampled_from(QUNITS))}
     return {"sym": sym, "form": form, "mag": draw(st.sampled_from([1.0, 3.0, 0.25, 1e3])), "dims": draw(st.sampled_from(DIMS)),
@@ -81,6 +81,9 @@ def dip_text(draw):
     mode = draw(st.sampled_from(["ok", "ok", "clash_constant", "unknown_unit", "bad_literal", "option", "dim_mismatch"]))
     if mode == "clash_constant":
         lines.insert(draw(st.integers(0, len(lines))), f"$unit {draw(st.sampled_from(['c', 'e', 'pi', 'k_B']))} = 3 m")
+    export = draw(st.booleans())
+    if names and export and draw(st.booleans()):
+        lines.append("empty float = none m")
     if names:
         lines.append(f"a float = 2 [{names[0]}]")
         lines.append(f"b float = 4 [{names[-1]}]")
@@ -99,7 +102,7 @@ def dip_text(draw):
     elif mode == "dim_mismatch" and names:
         lines.append(f"a = 3 K")
     # afterwards the returned environment's units are used by a numerical solver, inside a with block or as a plain object
-    return {"lines": lines, "mode": mode, "nunits": len(names), "names": names,
+    return {"lines": lines, "mode": mode, "nunits": len(names), "names": names, "export": export,
             "solver": draw(st.sampled_from([None, "with", "plain", "plain", "raise", "equal", "equal_raise"]))}
 
 
@@ -133,7 +136,7 @@ def overlap_history(draw):
         e = draw(entry())
         e = dict(e, sym=sy)
         if e["form"] != "quantity" and draw(st.integers(0, 3)):
-            e["form"] = "dict_type"
+            e["form"] = draw(st.sampled_from(["dict_type", "dict_type2"]))
         ops.append(["open", [e]])
         if draw(st.integers(0, 3)) == 0:
             ops.append(["dip", draw(dip_text())])
@@ -175,6 +178,11 @@ def _custom_type():
     class HarnessUnitType(UnitType):
         def _istype(self):
             return False
+
+    class HarnessUnitType2(UnitType):
+        def _istype(self):
+            return False
+    HarnessUnitType.second = HarnessUnitType2
     return HarnessUnitType
 
 
@@ -196,6 +204,8 @@ def _build(ents, typ):
                 x["name"] = "unit " + e["sym"]
             if e["form"] == "dict_type":
                 x["definition"] = typ
+            elif e["form"] == "dict_type2":
+                x["definition"] = typ.second
             elif e["form"] == "dict_builtin":
                 from scinumtools.units.unit_types import TemperatureUnitType
                 x["definition"] = TemperatureUnitType       # a conversion type that is already in the table
@@ -267,13 +277,18 @@ def _check(case, v):
             return v.fail("prefix-table", f"step {step} ({what}): UNIT_PREFIXES changed")
         want_types = list(R.PRISTINE["types"])
         # the custom conversion type is in the table exactly while at least one open scope registered a unit with it
-        ntyp = sum(1 for _env, _r, ents in stack if any(e["form"] == "dict_type" for e in ents))
-        if ntyp:
-            want_types = ["HarnessUnitType"] + want_types
+        # custom classes are prepended in the order in which they were first needed by a still-open scope
+        seen_t = []
+        for _env, _r, ents in stack:
+            for e in ents:
+                nm = {"dict_type": "HarnessUnitType", "dict_type2": "HarnessUnitType2"}.get(e["form"])
+                if nm and nm not in seen_t:
+                    seen_t.append(nm)
+        want_types = list(reversed(seen_t)) + want_types
         if nonlifo[0] and stack:
             # scopes with overlapping lifetimes: which of them keeps a shared conversion class alive is not specified;
             # everything else is, and so is the table once all of them have ended
-            if [t for t in snap["types"] if t != "HarnessUnitType"] != list(R.PRISTINE["types"]):
+            if [t for t in snap["types"] if not t.startswith("HarnessUnitType")] != list(R.PRISTINE["types"]):
                 return v.fail("type-table", f"step {step} ({what}): UNIT_TYPES = {snap['types']}")
         elif snap["types"] != want_types:
             return v.fail("type-table", f"step {step} ({what}): UNIT_TYPES = {snap['types']}, expected {want_types}")
@@ -397,6 +412,17 @@ def _check(case, v):
             v.label("dip_" + spec["mode"])
             if invariant(step, f"DIP parse ({spec['mode']}, raised={type(raised).__name__ if raised else None})"):
                 return
+            if raised is None and spec.get("names") and spec.get("export"):
+                # reading the parsed environment as quantities (which needs its units) may fail for an empty value,
+                # but leaves nothing registered
+                from scinumtools.dip import Format
+                try:
+                    env2.data(Format.QUANTITY)
+                except Exception:
+                    pass
+                v.label("quantity_export")
+                if invariant(step, "Environment.data(Format.QUANTITY) of the parsed environment"):
+                    return
             if raised is None and spec.get("solver") and spec.get("names"):
                 from scinumtools.dip.solvers import NumericalSolver
                 u0 = spec["names"][0]
